@@ -60,3 +60,18 @@ Proof.
   intros Hok He. pose proof (link_make fuel i k Hok) as H. rewrite He in H. cbn [option_map] in H.
   injection H as H. rewrite H. unfold mk_node. cbn [rnul rcls rid rnode]. repeat split; reflexivity.
 Qed.
+
+(* C07 "RE equality / ordering / hashing by id": == is equality of ids, the order is the order of ids,
+   partial_cmp is Some(cmp), and cmp answers Equal exactly where == holds *)
+Lemma g_re_eq_iff a b : M_RE_eq a b = Some true <-> RE_id a = RE_id b.
+Proof. rewrite canon_re_eq. split; [intros H; injection H as H; apply Nat.eqb_eq; exact H|intros ->; rewrite Nat.eqb_refl; reflexivity]. Qed.
+Lemma g_re_cmp_eq a b : M_RE_cmp a b = Some Eq <-> M_RE_eq a b = Some true.
+Proof.
+  rewrite canon_re_cmp, canon_re_eq. split; intros H; injection H as H; f_equal.
+  - apply Nat.compare_eq in H. rewrite H. apply Nat.eqb_refl.
+  - apply Nat.eqb_eq in H. rewrite H. apply Nat.compare_refl.
+Qed.
+Lemma g_re_partial_cmp a b : M_RE_partial_cmp a b = option_map Some (M_RE_cmp a b).
+Proof. rewrite canon_re_partial_cmp, canon_re_cmp. reflexivity. Qed.
+Lemma g_re_cmp_lt a b : M_RE_cmp a b = Some Lt <-> (RE_id a < RE_id b)%nat.
+Proof. rewrite canon_re_cmp. split; [intros H; injection H as H; apply Nat.compare_lt_iff; exact H|intros H; f_equal; apply Nat.compare_lt_iff; exact H]. Qed.
